@@ -635,7 +635,11 @@ def wkt_unit():
     for t, lt in {'WFl': 'F', 'WCoord': 'GV.Wkt.Coord F', 'Str': 'String', 'WPoint': 'GV.Wkt.Coord F',
                   'WLine': 'List (GV.Wkt.Coord F)', 'WHole': 'List (GV.Wkt.Coord F)', 'WMPoint': 'List (GV.Wkt.Coord F)',
                   'WMLine': 'List (List (GV.Wkt.Coord F))', 'WMPoly': 'List (GV.Wkt.Poly F)', 'WRing': 'RingView F',
-                  'WCen': 'Unit', 'WOutR': 'Unit', 'WInR': 'Unit'}.items():
+                  'WCen': 'Unit', 'WOutR': 'Unit', 'WInR': 'Unit',
+                  # readers: the whole text is the WKT value the model reads it as, a ring text its coordinate texts, a
+                  # coordinate text its tokens (`text.split(' ')`), a regex match of a coordinate that coordinate text
+                  'Chr': 'Char', 'WText': 'GV.Wkt.Wkt', 'WRingT': 'List GV.Wkt.CoordT', 'WCoordT': 'GV.Wkt.CoordT',
+                  'WMatch': 'GV.Wkt.CoordT', 'WTok': 'String', 'ZmDict': 'List (Char × F)', 'WK': 'Unit'}.items():
         py2lean.LEAN_TYPE.setdefault(t, lt)
     poly_like = {'WPolygon': ('GeoPolygon', 'polygon'), 'WBox': ('GeoBox', 'box'), 'WCircle': ('GeoCircle', 'circle'),
                  'WEllipse': ('GeoEllipse', 'ellipse')}
@@ -681,6 +685,13 @@ def wkt_unit():
         Inst(R('MultiGeoLineString', 'to_wkt'), 'multiLineToWkt', [('self', 'WMLine')], 'Str'),
         Inst(R('MultiGeoPolygon', 'linear_rings'), 'multiPolyLinearRings', [('self', 'WMPoly')], 'List ' + RINGS),
         Inst(R('MultiGeoPolygon', 'to_wkt'), 'multiPolyToWkt', [('self', 'WMPoly')], 'Str'),
+        # ---- readers: the hand-written logic behind the regular expressions
+        Inst('Coordinate.__eq__', 'coordEq', [('self', 'WCoord'), ('other', 'WCoord')], 'Bool'),
+        Inst('Coordinate.from_wkt', 'coordFromWkt', [('cls', 'WK'), ('wkt_str', 'WCoordT'), ('zm_order', 'Str')], 'Except WCoord'),
+        Inst(R('GeoPoint', '_parse_wkt_linear_ring'), 'parseLinearRing',
+             [('wkt_str', 'WText'), ('wkt_coords', 'WRingT'), ('min_points', 'Int'), ('closed', 'Bool')], 'Except List WCoord'),
+        Inst(R('GeoPoint', '_parse_wkt_linear_ring'), 'parseLinearRingDefault', [('wkt_str', 'WText'), ('wkt_coords', 'WRingT')],
+             'Except List WCoord', doc='`min_points`, `closed` left at their defaults'),
     ]
 
     def str_(tr, args):
@@ -694,6 +705,96 @@ def wkt_unit():
         if which is None or any(a.path is None or not a.path.startswith('self.') for a in args):
             raise Unsupported('GeoCircle(' + ', '.join(a.typ for a in args) + ')')
         return Val(f'{tr.env["self"].text}.{which}', 'WHole')
+
+    ast = py2lean.ast
+
+    def re_findall_coord(tr, args):
+        if [a.typ for a in args] != ['WRingT']:
+            raise Unsupported('_RE_COORD.findall(' + ', '.join(a.typ for a in args) + ')')
+        return Val(args[0].text, 'List WCoordT')
+
+    def re_findall_zm(tr, args):
+        if [a.typ for a in args] != ['WText']:
+            raise Unsupported('_RE_ZM.findall(' + ', '.join(a.typ for a in args) + ')')
+        return Val(f'(tagList {args[0].text})', 'List Str')
+
+    def re_search_coord(tr, args):
+        if [a.typ for a in args] != ['WText']:
+            raise Unsupported('_RE_COORD.search(' + ', '.join(a.typ for a in args) + ')')
+        return Val(f'({args[0].text}.body.firstCoord)', 'Opt WMatch')
+
+    def dict_(tr, args):
+        if [a.typ for a in args] != ['List Prod Chr WTok']:
+            raise Unsupported('dict(' + ', '.join(a.typ for a in args) + ')')
+        v = Val(f'(dictFloat io {args[0].text})', 'ZmDict')
+        v.raises = True                            # float() of a token that is not a number: ValueError
+        return v
+
+    def method(tr, recv, attr, args):
+        if recv.typ == 'WCoordT' and attr == 'split' and len(args) == 1 and isinstance(args[0], ast.Constant) and args[0].value == ' ':
+            return Val(recv.text, 'List Str')
+        if recv.typ == 'ZmDict' and attr == 'get' and len(args) == 1 and isinstance(args[0], ast.Constant) \
+                and isinstance(args[0].value, str) and len(args[0].value) == 1 and args[0].value.isalpha():
+            return Val(f"(dictGet {recv.text} '{args[0].value}')", 'Opt WFl')
+        return None
+
+    def call_hook(tr, e):
+        f = e.func
+        # `map(float, xs)` is lazy: a list of tokens, each converted when (and if) it is consumed
+        if isinstance(f, ast.Name) and f.id == 'map' and len(e.args) == 2 and not e.keywords and isinstance(e.args[0], ast.Name) \
+                and e.args[0].id == 'float':
+            xs = tr.expr(e.args[1])
+            if xs.typ != 'List Str':
+                raise Unsupported(f'map(float, {xs.typ})')
+            return Val(xs.text, 'List WTok')
+        # `Coordinate(*two_strings, z=…, m=…)`: `Coordinate.__init__` (float() of both, then the range wrapping: C08)
+        if isinstance(f, ast.Name) and f.id == 'Coordinate' and len(e.args) == 1 and isinstance(e.args[0], ast.Starred) \
+                and [k.arg for k in e.keywords] == ['z', 'm']:
+            inner = e.args[0].value
+            if isinstance(inner, ast.Call) and isinstance(inner.func, ast.Name) and inner.func.id == 'cast' and len(inner.args) == 2:
+                inner = inner.args[1]
+            xs, z, m = tr.expr(inner), tr.expr(e.keywords[0].value), tr.expr(e.keywords[1].value)
+            if (xs.typ, z.typ, m.typ) != ('List Str', 'Opt WFl', 'Opt WFl'):
+                raise Unsupported(f'Coordinate(*{xs.typ}, z={z.typ}, m={m.typ})')
+            v = Val(f'(coordOfStrs io {xs.text} {z.text} {m.text})', 'WCoord')
+            v.raises = True
+            return v
+        return None
+
+    def bind_keywords(tr, e):
+        # keyword arguments of a method call put in their positions (parameters skipped in between take their default)
+        f = e.func
+        if not isinstance(f, ast.Attribute) or not isinstance(f.value, ast.Name) or any(k.arg is None for k in e.keywords):
+            return None
+        cls = f.value.id if f.value.id in src.bases and f.value.id not in tr.env else \
+            tr.u.class_of(tr.env[f.value.id].typ) if f.value.id in tr.env else None
+        q = src.resolve(cls, f.attr) if cls in src.bases else None
+        if q is None or len(e.keywords) != 1:
+            return None                          # (several keyword values: their evaluation order would have to be kept)
+        fn = src.get(q)
+        names = [a.arg for a in fn.args.args]
+        if 'staticmethod' not in src.decorators(q):
+            names = names[1:]
+        defaults = dict(zip(reversed(names), reversed(fn.args.defaults)))
+        kw = {k.arg: k.value for k in e.keywords}
+        if not set(kw) <= set(names[len(e.args):]):
+            return None
+        pos = list(e.args)
+        for n in names[len(e.args): max(names.index(k) for k in kw) + 1]:
+            if n in kw:
+                pos.append(kw[n])
+            elif n in defaults:
+                pos.append(defaults[n])
+            else:
+                return None
+        return ast.Call(func=f, args=pos, keywords=[])
+
+    def eq_hook(tr, a, b):
+        if a.typ == b.typ == 'WFl':
+            return Val(f'(io.val {a.text} == io.val {b.text})', 'Bool')         # float == float: equal values
+        if a.typ == b.typ == 'Opt WFl':
+            return Val(f'(GV.Wkt.optEqv io {a.text} {b.text})', 'Bool')         # None == None, float == float, else False
+        return None
 
     def super_method(tr, attr, args):
         # `super().m(**kwargs)` inside a method of class C on a receiver of class D: the next definition behind C in D's order
@@ -714,7 +815,8 @@ def wkt_unit():
             ('WRing', 'angle_max'): ('{}.amax', 'R'), ('WRing', 'center'): ('()', 'WCen'),
             ('WRing', 'outer_radius'): ('()', 'WOutR'), ('WRing', 'inner_radius'): ('()', 'WInR')}
     abstract = {('WHole', 'bounding_coords', ()): ('{0}', 'List WCoord'),
-                ('WRing', '_draw_bounds', ()): ('({0}.outerB, {0}.innerB)', 'Prod (List WCoord) (List WCoord)')}
+                ('WRing', '_draw_bounds', ()): ('({0}.outerB, {0}.innerB)', 'Prod (List WCoord) (List WCoord)'),
+                ('WMatch', 'group', ()): ('{0}', 'WCoordT')}
     for t in poly_like:
         attr[(t, 'holes')] = ('{}.holes', 'List WHole')
         attr[(t, 'outline')] = ('{}.outline', 'List WCoord')
@@ -727,13 +829,48 @@ def wkt_unit():
         '  amin : Rat', '  amax : Rat',
         '  outerC : List (GV.Wkt.Coord F)', '  innerC : List (GV.Wkt.Coord F)',
         '  outerB : List (GV.Wkt.Coord F)', '  innerB : List (GV.Wkt.Coord F)',
-        '  holes : List (List (GV.Wkt.Coord F))'])
-    return Unit('SrcWkt', src, 'GV.Src.Wkt', ['GeoVerif.Model.Wkt', 'GeoVerif.Model.PyPrelude'], insts, classes,
-                header=header, attr_types=attr, abstract=abstract,
-                intrinsics={'str': str_, 'GeoCircle': circle},
-                hooks={'isinstance': lambda typ: None, 'strings': True, 'sequences': True, 'resolve': src.resolve, 'always_truthy': (),
-                       'super_method': super_method,
-                       'local_type': lambda qual, name: {'bbox_strs': 'List Str'}.get(name) if qual.endswith('.to_wkt') else None},
+        '  holes : List (List (GV.Wkt.Coord F))', '',
+        '/-- `_RE_ZM.findall(wkt_str)`: the Z/M tag of the text as a string, if the text has one -/',
+        'def tagList (w : GV.Wkt.Wkt) : List String := if w.tag.isEmpty then [] else [String.ofList w.tag]', '',
+        '/-- `dict(zip(keys, map(float, tokens)))`: `map` is lazy, only the tokens `zip` pairs with a key are converted -/',
+        'def dictFloat (io : GV.Wkt.NumIO F) : List (Char × String) → Except String (List (Char × F))',
+        '  | [] => .ok []',
+        '  | (k, t) :: r =>',
+        '    match io.rd t with',
+        '    | none => .error "ERR:Value"',
+        '    | some x =>',
+        '      match dictFloat io r with',
+        '      | .error e => .error e',
+        '      | .ok d => .ok ((k, x) :: d)', '',
+        '/-- `d.get(k)` of a dict built from pairs: the last pair with that key -/',
+        'def dictGet (d : List (Char × F)) (k : Char) : Option F := (d.reverse.find? (·.1 == k)).map (·.2)', '',
+        '/-- `Coordinate(*strs, z=z, m=m)`: two strings for longitude and latitude (`float()` of each: `ValueError`), then',
+        '    the range wrapping of `Coordinate.__init__` (the model\'s `mkCoord`, tied to the source by C08) -/',
+        'def coordOfStrs (io : GV.Wkt.NumIO F) : List String → Option F → Option F → Except String (GV.Wkt.Coord F)',
+        '  | [lonT, latT], z, m =>',
+        '    match io.rd lonT, io.rd latT with',
+        '    | some lon, some lat => .ok (GV.Wkt.mkCoord io lon lat z m)',
+        '    | _, _ => .error "ERR:Value"',
+        '  | _, _, _ => .error "ERR:Type"'])
+    classes['WK'] = 'GeoPoint'          # `cls` inside a reader: any shape class (they inherit `_parse_wkt_linear_ring` alike)
+
+    def local_type(qual, name):
+        if qual.endswith('.to_wkt'):
+            return {'bbox_strs': 'List Str'}.get(name)
+        return {('Coordinate.from_wkt', 'zm'): 'ZmDict'}.get((qual, name))
+
+    def expr_stmt(tr, value):
+        # `warn_once(…)` only logs
+        return isinstance(value, ast.Call) and isinstance(value.func, ast.Name) and value.func.id == 'warn_once'
+
+    return Unit('SrcWkt', src, 'GV.Src.Wkt', ['GeoVerif.Model.Wkt', 'GeoVerif.Model.PyPrelude', 'GeoVerif.Model.PyPreludeSeq'],
+                insts, classes, header=header, attr_types=attr, abstract=abstract,
+                intrinsics={'str': str_, 'GeoCircle': circle, '_RE_COORD.findall': re_findall_coord,
+                            '_RE_ZM.findall': re_findall_zm, '_RE_COORD.search': re_search_coord, 'dict': dict_},
+                hooks={'isinstance': lambda typ: {'WCoord': {'Coordinate'}}.get(typ), 'strings': True, 'sequences': True,
+                       'resolve': src.resolve, 'always_truthy': ('WMatch',), 'super_method': super_method,
+                       'local_type': local_type, 'method': method, 'call': call_hook, 'bind_keywords': bind_keywords,
+                       'eq': eq_hook, 'expr_stmt': expr_stmt, 'short_circuit_raises': True},
                 ctx_params=[('io', 'GV.Wkt.NumIO F')])
 
 
